@@ -192,6 +192,9 @@ func minimalDoc(kind, fl string) obj {
 	case "paths":
 		return obj{"/p": minimalDoc("pathItem", "")}
 	case "response":
+		if fl == "ref" {
+			return obj{"$ref": "#/responses/X"}
+		}
 		return obj{"description": "d"}
 	case "responses":
 		return obj{"200": minimalDoc("response", "")}
@@ -201,6 +204,8 @@ func minimalDoc(kind, fl string) obj {
 		return obj{}
 	case "parameter":
 		switch fl {
+		case "ref":
+			return obj{"$ref": "#/parameters/X"}
 		case "", "body":
 			return obj{"name": "n", "in": "body", "schema": strSchema()}
 		case "path":
@@ -440,6 +445,12 @@ func valueFor(name, vt, cls string, wild bool) interface{} {
 		}
 		return cls
 	}
+	switch cls {
+	case "emptyObj":
+		return obj{}
+	case "emptyArr":
+		return []interface{}{}
+	}
 	switch vt {
 	case "str":
 		if cls == "emptyStr" {
@@ -584,6 +595,16 @@ func refTargets() obj {
 		"responses":   obj{"X": obj{"description": "x"}},
 		"paths":       obj{"/x": obj{"get": obj{"responses": obj{"200": obj{"description": "ok"}}}}},
 	}
+}
+
+// remoteTargets: the other document of the expansion runs; its parameter and response hold a schema that is
+// a $ref to a recursive definition of that document
+func remoteTargets() obj {
+	t := refTargets()
+	t["definitions"].(obj)["Rec"] = obj{"type": "object", "properties": obj{"next": obj{"$ref": "#/definitions/Rec"}}}
+	t["parameters"] = obj{"X": obj{"name": "x", "in": "body", "schema": obj{"$ref": "#/definitions/Rec"}}}
+	t["responses"] = obj{"X": obj{"description": "x", "schema": obj{"$ref": "#/definitions/Rec"}}}
+	return t
 }
 
 func build(c codecCase) (interface{}, string) {
@@ -926,7 +947,12 @@ func runCodec(id int, c codecCase) (o *codecObs) {
 		o.SrcRaw, o.N1Raw = string(src), string(n1)
 		var sw spec.Swagger
 		if err := json.Unmarshal(src, &sw); err == nil {
-			targets := mustJSON(refTargets())
+			targets := mustJSON(remoteTargets())
+			if sw.Definitions == nil {
+				sw.Definitions = spec.Definitions{}
+			}
+			// the recursive definition of the other document is met first through the definitions
+			sw.Definitions["UsesRec"] = *spec.RefSchema("other.json#/definitions/Rec")
 			err := spec.ExpandSpec(&sw, &spec.ExpandOptions{RelativeBase: "file:///w/r/root.json",
 				PathLoader: func(u string) (json.RawMessage, error) { return json.RawMessage(targets), nil }})
 			if err != nil {
